@@ -280,16 +280,18 @@ impl<'e> Lower<'e> {
         let f = self.f; if !(f.self_mut && f.ret != Unit) { return Err("not a lens".into()); }
         let st = f.self_ty.clone().ok_or("lens without self")?; self.bind_new("self", st.clone());
         for (n, ty) in &f.params { self.bind_new(n, ty.clone()); }
-        let newv = self.bind_new("$new", f.ret.clone()); let arity = 2 + f.params.len();
+        // `Self::Target` / `Self::Output` of DerefMut / IndexMut are declared in the Deref / Index impl
+        let fret = match (&f.ret, f.trait_.as_ref().map(|t| t.0.as_str())) { (Unknown(_), Some("DerefMut")) => self.env.deref.get(&st).cloned().ok_or("DerefMut without Deref")?, (Unknown(_), Some("IndexMut")) => self.env.trait_impls.get(&("Index".to_string(), st.clone(), "index".to_string())).and_then(|v| v.first()).map(|&i| self.env.fns[i].ret.clone()).ok_or("IndexMut without Index")?, (r, _) => r.clone() };
+        let newv = self.bind_new("$new", fret.clone()); let arity = 2 + f.params.len();
         let b = f.body.as_ref().ok_or("no body")?; let mut e: &Expr = match b.stmts.last() { Some(Stmt::Expr(e, None)) => e, _ => return Err("lens body".into()) };
         loop { match e { Expr::Unsafe(u) => match u.block.stmts.last() { Some(Stmt::Expr(x, None)) => e = x, _ => return Err("lens unsafe body".into()) }, Expr::Paren(p) => e = &p.expr, Expr::Reference(r) => e = &r.expr, _ => break } }
         match e {
             Expr::Match(m) => { let (_, se) = self.ex(&m.expr, None)?; let mut arms = vec![]; let mut dflt = Ir::Panic;
                 for arm in &m.arms { match &arm.pat { Pat::Wild(_) => { dflt = Ir::Panic; } Pat::Lit(l) => { let k = self.lit_int(&Expr::Lit(ExprLit { attrs: vec![], lit: l.lit.clone() })).ok_or("lens arm key")?; let mut pe: &Expr = &arm.body; while let Expr::Reference(r) = pe { pe = &r.expr; }
-                        let mut stmts = vec![]; let synth = Expr::Assign(ExprAssign { attrs: vec![], left: Box::new(pe.clone()), eq_token: Default::default(), right: Box::new(parse_quote!(__new)) }); self.locals.last_mut().unwrap().insert("__new".into(), (f.ret.clone(), newv)); self.stmt_expr(&synth, &mut stmts)?; arms.push((k, Ir::Block(stmts, Box::new(Ir::Var(0))))); } o => return Err(format!("lens arm {}", o.to_token_stream())) } }
+                        let mut stmts = vec![]; let synth = Expr::Assign(ExprAssign { attrs: vec![], left: Box::new(pe.clone()), eq_token: Default::default(), right: Box::new(parse_quote!(__new)) }); self.locals.last_mut().unwrap().insert("__new".into(), (fret.clone(), newv)); self.stmt_expr(&synth, &mut stmts)?; arms.push((k, Ir::Block(stmts, Box::new(Ir::Var(0))))); } o => return Err(format!("lens arm {}", o.to_token_stream())) } }
                 Ok((arity, Ir::MatchI(Box::new(se), arms, Box::new(dflt)))) }
             Expr::Unary(u) if matches!(u.op, UnOp::Deref(_)) => { // pointer cast view: write back the leaves of the new value
-                let tl = self.leaves(&f.ret).ok_or("lens target layout")?; let sl = self.leaves(&st).ok_or("lens self layout")?; if tl.len() > sl.len() { return Err("UB: lens view larger than object".into()); }
+                let tl = self.leaves(&fret).ok_or("lens target layout")?; let sl = self.leaves(&st).ok_or("lens self layout")?; if tl.len() > sl.len() { return Err("UB: lens view larger than object".into()); }
                 let mut ls = vec![]; for (i, (p, _)) in sl.iter().enumerate() { let (base, path) = if i < tl.len() { (Ir::Var(newv), &tl[i].0) } else { (Ir::Var(0), p) }; let mut x = base; for &k in path { x = proj(k, x); } ls.push(x); }
                 let r = self.build(&st, &mut ls.into_iter()).ok_or("lens rebuild")?; Ok((arity, r)) }
             o => Err(format!("lens form {}", o.to_token_stream().to_string().chars().take(40).collect::<String>())) }
@@ -404,6 +406,12 @@ impl<'e> Lower<'e> {
                 let (_, se) = self.ex(&m.expr, None)?; let slot = self.next; stmts.push(St::Let(se)); self.next += 1; let mut chain: Vec<St> = vec![St::Expr(Ir::Panic)];
                 for arm in m.arms.iter().rev() { match &arm.pat { Pat::Wild(_) => { let mut b = vec![]; self.stmt_expr(&arm.body, &mut b)?; chain = b; } Pat::Lit(l) => { let k = self.lit_int(&Expr::Lit(ExprLit { attrs: vec![], lit: l.lit.clone() })).ok_or("arm key")?; let mut b = vec![]; self.stmt_expr(&arm.body, &mut b)?; chain = vec![St::If(prim("PICmp IEq", vec![Ir::Var(slot), Ir::LitI("usize", k)]), b, chain)]; } o => return Err(format!("stmt match arm {}", o.to_token_stream())) } }
                 stmts.extend(chain); Ok(()) }
+            Expr::MethodCall(m) if m.args.len() == 1 && matches!(&m.args[0], Expr::Reference(r) if r.mutability.is_some() && matches!(&*r.expr, Expr::Index(ix) if matches!(&*ix.index, Expr::Range(_)))) => {
+                // callee(&mut x[lo..hi]) where the callee writes through its slice parameter: write the returned sub-slice back
+                let Expr::Reference(r) = &m.args[0] else { unreachable!() }; let Expr::Index(ix) = &*r.expr else { unreachable!() }; let Expr::Range(rg) = &*ix.index else { unreachable!() };
+                let lo = match &rg.start { Some(e) => self.lit_int(e).ok_or("range start")?, None => 0 }; let hi = match &rg.end { Some(e) => self.lit_int(e).ok_or("range end")?, None => return Err("open range".into()) };
+                let (_, pl) = self.place(&ix.expr)?; let (_, be) = self.ex(&ix.expr, None)?; let (_, call) = self.ex(e, None)?;
+                stmts.push(St::Assign(pl, prim(&format!("PWriteRange {lo} {hi}"), vec![be, call]))); Ok(()) }
             Expr::MethodCall(m) if m.method == "copy_from_slice" => {
                 let Expr::Index(ix) = &*m.receiver else { return Err("copy_from_slice receiver".into()) }; let Expr::Range(r) = &*ix.index else { return Err("copy_from_slice range".into()) };
                 let (_, pl) = self.place(&ix.expr)?; let (_, be) = self.ex(&ix.expr, None)?; let lo = match &r.start { Some(e) => self.lit_int(e).ok_or("range start")?, None => 0 }; let hi = match &r.end { Some(e) => self.lit_int(e).ok_or("range end")?, None => return Err("open range".into()) };
@@ -418,6 +426,9 @@ impl<'e> Lower<'e> {
                 let (rt, pl) = self.place(&m.receiver)?; let name = m.method.to_string(); let (_, re) = self.ex(&m.receiver, None)?;
                 let ptys: Vec<Ty> = self.env.inherent.get(&(rt.clone(), name.clone())).map(|&i| self.env.fns[i].params.iter().map(|p| p.1.clone()).collect()).unwrap_or_default();
                 let (ts, es) = self.args_with(&m.args, &ptys)?; let (_, callee) = self.resolve_method(&rt, &name, &ts, None)?; let mut all = vec![re]; all.extend(es); let call = self.apply(callee, all)?; stmts.push(St::Assign(pl, call)); Ok(()) }
+            // a nested block in statement position runs in the enclosing environment (its assignments to outer locals persist)
+            Expr::Block(_) | Expr::Unsafe(_) if { let b = match e { Expr::Block(b) => &b.block, Expr::Unsafe(u) => &u.block, _ => unreachable!() }; let saved = self.next; let ln = self.locals.len(); let r = self.stmt_block(b); self.next = saved; self.locals.truncate(ln); r.is_ok() } => {
+                let b = match e { Expr::Block(b) => &b.block, Expr::Unsafe(u) => &u.block, _ => unreachable!() }; let t = self.stmt_block(b)?; stmts.push(St::If(Ir::LitB(true), t, vec![])); Ok(()) }
             Expr::Return(_) | Expr::Macro(_) | Expr::Call(_) | Expr::MethodCall(_) | Expr::Block(_) | Expr::Unsafe(_) | Expr::Match(_) => { let (_, ir) = self.ex(e, None)?; stmts.push(St::Expr(ir)); Ok(()) }
             o => Err(format!("stmt expr {}", o.to_token_stream().to_string().chars().take(30).collect::<String>())),
         }
